@@ -216,4 +216,171 @@ theorem conflict_rename_total (cols : List TagCol) (hn : ∀ c ∈ cols, sep ∉
 example : renamed [⟨"tf".toList, "a".toList, 's'⟩, ⟨"tf".toList, "a".toList, 'i'⟩, ⟨"tf".toList, "b".toList, 'i'⟩]
     ⟨"tf".toList, "a".toList, 'i'⟩ = "a#int".toList := by decide
 
+/-! ## ordered secondary index (thin multiset model, `Banyan/Model/C03.lean`) -/
+
+theorem hull_some : ∀ (rs : List (Option (Int × Int))) (lo hi : Int), hull rs = some (lo, hi) →
+    ∀ r ∈ rs, ∃ a b, r = some (a, b) ∧ lo ≤ a ∧ b ≤ hi := by
+  intro rs
+  induction rs with
+  | nil => intro lo hi h; simp [hull] at h
+  | cons r rest ih =>
+    intro lo hi h x hx
+    cases rest with
+    | nil =>
+      simp at hx; subst hx
+      simp only [hull] at h
+      exact ⟨lo, hi, h, Int.le_refl _, Int.le_refl _⟩
+    | cons r2 rest2 =>
+      simp only [hull] at h
+      cases hr : r with
+      | none => rw [hr] at h; simp at h
+      | some ab =>
+        obtain ⟨a, b⟩ := ab
+        cases hh : hull (r2 :: rest2) with
+        | none => rw [hr, hh] at h; simp at h
+        | some cd =>
+          obtain ⟨c, d⟩ := cd
+          rw [hr, hh] at h
+          simp at h
+          obtain ⟨h1, h2⟩ := h
+          rcases List.mem_cons.1 hx with hx | hx
+          · exact ⟨a, b, hx.trans hr, by omega, by omega⟩
+          · obtain ⟨a', b', e, l1, l2⟩ := ih c d hh x hx
+            exact ⟨a', b', e, by omega, by omega⟩
+
+theorem overlaps_mono (q : SQuery) {a b lo hi : Int} (h1 : lo ≤ a) (h2 : b ≤ hi)
+    (h : q.overlaps (some (a, b)) = true) : q.overlaps (some (lo, hi)) = true := by
+  unfold SQuery.overlaps at *
+  simp only [] at *
+  cases hm : q.minTs <;> cases hM : q.maxTs <;> simp_all <;> omega
+
+/-- a well-formed part (range covers its elements) is selected by every query whose timestamp range
+    contains one of its elements: no false negatives from the part-level pruning -/
+theorem sidx_exact_covered (parts : List SPart) (hwf : ∀ p ∈ parts, p.wf) (q : SQuery) :
+    ∀ e ∈ sExact parts q, e ∈ sQuery parts q := by
+  intro e he
+  unfold sExact at he
+  unfold sQuery
+  rw [List.mem_flatMap] at he ⊢
+  obtain ⟨p, hp, hep⟩ := he
+  rw [List.mem_filter] at hep
+  simp only [Bool.and_eq_true] at hep
+  refine ⟨p, List.mem_filter.2 ⟨hp, ?_⟩, List.mem_filter.2 ⟨hep.1, hep.2.1⟩⟩
+  cases hr : p.range with
+  | none => rfl
+  | some ab =>
+    obtain ⟨lo, hi⟩ := ab
+    have hb := hwf p hp lo hi hr e hep.1
+    have ht := hep.2.2
+    unfold SQuery.tsIn at ht
+    unfold SQuery.overlaps
+    simp only []
+    cases hm : q.minTs <;> cases hM : q.maxTs <;> simp_all <;> omega
+
+theorem sMerge_mem {parts : List SPart} {ids : List Nat} {n : Nat} {p : SPart} (hp : p ∈ sMerge false parts ids n) :
+    (p ∈ parts ∧ ids.contains p.id = false) ∨
+    (p.elems = (parts.filter fun x => ids.contains x.id).flatMap (·.elems) ∧
+      p.range = hull ((parts.filter fun x => ids.contains x.id).map (·.range))) ∨ p ∈ parts := by
+  unfold sMerge at hp
+  simp only [Bool.false_eq_true, if_false] at hp
+  split at hp
+  · exact Or.inr (Or.inr hp)
+  · rcases List.mem_append.1 hp with h | h
+    · rw [List.mem_filter] at h
+      exact Or.inl ⟨h.1, by simpa using h.2⟩
+    · rw [List.mem_singleton] at h; subst h
+      exact Or.inr (Or.inl ⟨rfl, rfl⟩)
+
+/-- the repaired merge keeps every part well-formed -/
+theorem sMerge_wf (parts : List SPart) (ids : List Nat) (n : Nat) (hwf : ∀ p ∈ parts, p.wf) :
+    ∀ p ∈ sMerge false parts ids n, p.wf := by
+  intro p hp
+  rcases sMerge_mem hp with h | ⟨he, hr⟩ | h
+  · exact hwf p h.1
+  · intro lo hi hrange e hemem
+    rw [he] at hemem
+    rw [hr] at hrange
+    obtain ⟨x, hx, hex⟩ := List.mem_flatMap.1 hemem
+    obtain ⟨a, b, hab, l1, l2⟩ := hull_some _ lo hi hrange x.range (List.mem_map_of_mem hx)
+    have := hwf x (List.mem_filter.1 hx).1 a b hab e hex
+    omega
+  · exact hwf p h
+
+/-- **a merge never loses an answer**: every element a query returned before the merge of any chosen
+    parts is returned after it – for every key range, series set and timestamp range (the merged part's
+    range is the hull of the inputs', or absent as soon as one input has none) -/
+theorem sidx_merge_monotone (parts : List SPart) (ids : List Nat) (n : Nat) (q : SQuery) :
+    ∀ e ∈ sQuery parts q, e ∈ sQuery (sMerge false parts ids n) q := by
+  intro e he
+  unfold sQuery at he ⊢
+  obtain ⟨p, hp, hep⟩ := List.mem_flatMap.1 he
+  rw [List.mem_filter] at hp
+  unfold sMerge
+  simp only [Bool.false_eq_true, if_false]
+  split
+  · exact List.mem_flatMap.2 ⟨p, List.mem_filter.2 hp, hep⟩
+  · rename_i hne
+    by_cases hc : ids.contains p.id = true
+    · -- p was merged: the new part holds its elements and its range is at least as wide
+      refine List.mem_flatMap.2 ⟨_, List.mem_filter.2 ⟨List.mem_append.2 (Or.inr (List.mem_singleton.2 rfl)), ?_⟩, ?_⟩
+      · simp only []
+        cases hh : hull ((parts.filter fun x => ids.contains x.id).map (·.range)) with
+        | none => rfl
+        | some lh =>
+          obtain ⟨lo, hi⟩ := lh
+          have hpm : p ∈ parts.filter fun x => ids.contains x.id := List.mem_filter.2 ⟨hp.1, hc⟩
+          obtain ⟨a, b, hab, l1, l2⟩ := hull_some _ lo hi hh p.range (List.mem_map_of_mem hpm)
+          have := hp.2
+          rw [hab] at this
+          exact overlaps_mono q l1 l2 this
+      · simp only []
+        rw [List.mem_filter] at hep ⊢
+        exact ⟨List.mem_flatMap.2 ⟨p, List.mem_filter.2 ⟨hp.1, hc⟩, hep.1⟩, hep.2⟩
+    · refine List.mem_flatMap.2 ⟨p, List.mem_filter.2 ⟨List.mem_append.2 (Or.inl (List.mem_filter.2 ⟨hp.1, by simpa using hc⟩)), hp.2⟩, hep⟩
+
+/-- the multiset of stored elements is unchanged by a merge, hence so is what every query is entitled
+    to (`sExact`), and – for queries without a timestamp range – the answer itself -/
+theorem sidx_merge_preserves (parts : List SPart) (ids : List Nat) (n : Nat) (q : SQuery) :
+    (sExact (sMerge false parts ids n) q).Perm (sExact parts q) ∧
+    (q.minTs = none → q.maxTs = none → (sQuery (sMerge false parts ids n) q).Perm (sQuery parts q)) := by
+  have key : ∀ (f : SElem → Bool), ((sMerge false parts ids n).flatMap fun p => p.elems.filter f).Perm
+      (parts.flatMap fun p => p.elems.filter f) := by
+    intro f
+    unfold sMerge
+    simp only [Bool.false_eq_true, if_false]
+    split
+    · exact List.Perm.refl _
+    · simp only [List.flatMap_append, List.flatMap_cons, List.flatMap_nil, List.append_nil]
+      have h1 : ((parts.filter fun x => ids.contains x.id).flatMap (·.elems)).filter f =
+          (parts.filter fun x => ids.contains x.id).flatMap fun p => p.elems.filter f := by
+        rw [List.filter_flatMap]
+      rw [h1, ← List.flatMap_append]
+      refine List.Perm.flatMap_right _ ?_
+      exact List.perm_append_comm.trans (List.filter_append_perm _ parts)
+  refine ⟨key _, fun h1 h2 => ?_⟩
+  have hall : ∀ r, q.overlaps r = true := by
+    intro r; unfold SQuery.overlaps; cases r <;> simp [h1, h2]
+  unfold sQuery
+  have e1 : ∀ ps : List SPart, ps.filter (fun p => q.overlaps p.range) = ps := by
+    intro ps; rw [List.filter_eq_self]; intro p _; exact hall p.range
+  rw [e1, e1]
+  exact key _
+
+/-- the pinned aggregation (minimum/maximum over the inputs that have a bound): a part without a range,
+    merged with a part that has one, inherits that range and its elements vanish from timestamp
+    queries (finding F56) -/
+theorem sidx_merge_legacy_counterexample :
+    let parts : List SPart := [⟨1, [⟨1, 5, "a", 350⟩], none⟩, ⟨2, [⟨1, 6, "b", 150⟩], some (100, 200)⟩]
+    let q : SQuery := { sids := [1], minKey := none, maxKey := none, minTs := some 300, maxTs := some 400, desc := false }
+    sQuery parts q = [⟨1, 5, "a", 350⟩] ∧ sQuery (sMerge true parts [1, 2] 3) q = [] ∧
+      sQuery (sMerge false parts [1, 2] 3) q = [⟨1, 5, "a", 350⟩, ⟨1, 6, "b", 150⟩] := by
+  decide
+
+example : (⟨2, [⟨1, 6, "b", 150⟩], some (100, 200)⟩ : SPart).wf := by
+  intro lo hi h e he
+  simp at h he
+  obtain ⟨rfl, rfl⟩ := h
+  subst he
+  decide
+
 end Banyan.C03
